@@ -99,7 +99,7 @@ impl core::convert::From<f64> for FloatLiteral {
 @*/
     requires
         // [INT-PRE] the token is an IntLit of ANY length (so its value need not fit any machine integer)
-        matches_int_lit(literal),
+        matches_int_lit($param),
     ensures
         // [INT-TOTAL] no panic (implicit: no unwrap/expect reachable); the result is a literal or a user error
         r is Ok ==> r->Ok_0 is Unresolved,
@@ -112,7 +112,7 @@ impl core::convert::From<f64> for FloatLiteral {
 @*/
     requires
         // [META-PRE]
-        matches_int_lit(literal),
+        matches_int_lit($param),
     ensures
         // [META-TOTAL]
         r is Ok ==> r->Ok_0 is Integer,
@@ -125,7 +125,7 @@ impl core::convert::From<f64> for FloatLiteral {
 @*/
     requires
         // [FLOAT-PRE] the token is a FloatLit; the unwrap is unreachable by A3
-        matches_float_lit(tok),
+        matches_float_lit($param),
     ensures
         // [FLOAT-TOTAL] a parsed decimal literal is a Float64 literal until the checker selects a width
         r is Float64,
